@@ -51,7 +51,7 @@ ASSUMPTIONS = ["stub client is faithful to aiomqtt's observable contract"]
 REQUIRED_PROBES = ["prefix_with_slash", "payload_with_semicolon", "payload_with_slash", "payload_binary",
                    "payload_empty", "broker_drop", "disconnect_reader_blocked", "disconnect_right_after_connect",
                    "echo_roundtrip", "hook_subclass", "reads_fifo", "publish_failed", "connect_failed",
-                   "second_session", "reconnect_after_failed_disconnect"]
+                   "second_session", "reconnect_after_failed_disconnect", "burst_before_first_read"]
 SHRINK_LISTS = ("events", "writes", "tapes", "echo")
 
 PREFIXES = [("mygateway1-out", "mygateway1-in"), ("a/b/out", "a/b/in"), ("x", "y"), ("home/ms/1/out", "home/ms/1/in"),
@@ -86,6 +86,13 @@ def gen(seed: int, i: int, tier: str) -> dict:
         else:
             events.append({"at": t, "op": "foreign", "topic": rng.choice([f"{inp}/1/2/9/0/0", f"{inp}/1/2/1/0", "other/1/2/1/0/0",
                                                                        f"{inp}/1/2/1/0/0/7"])})
+    if i % 40 == 7:
+        # a burst while the application is busy: many messages queue up before the first read
+        nburst = rng.choice([257, 300, 1000])
+        events = [{"at": 1.0, "op": "msg", "f": [k % 250, k % 3, 1, 0, 2], "payload": str(k).encode().hex()} for k in range(nburst)]
+        return {"cfg": {"in": inp, "out": outp, "reads": nburst + 1, "read_start": 5.25, "disconnect_at": 50.0, "echo": False,
+                        "second_session": False}, "events": events + [{"at": 10.0, "op": "msg", "f": [1, 1, 1, 0, 2], "payload": b"late".hex()}],
+                "writes": [], "echo": [], "tapes": {}, "burst": nburst}
     writes = []
     for _ in range(rng.randint(0, 4)):
         f = [rng.choice([0, 1, 12, 255]), rng.choice([0, 3, 255]), rng.choice([0, 1, 2, 3, 4]), rng.choice([0, 1]),
@@ -323,6 +330,8 @@ def _phase_client(scn, w, broker, res):
             res.violate(PROP, "reads", "phantom-read-result", f"{kind} {val!r}"[:200])
     if n >= 2 and fifo_ok:
         res.probes["reads_fifo"] += 1
+    if scn.get("burst"):
+        res.probes["burst_before_first_read"] += 1
     # non-progress: a reader is still blocked although events for it were delivered before the disconnect
     reader_t = tasks[0]
     if not reader_t.done() and len(results) < min(len(expected), cfg["reads"]):
